@@ -89,6 +89,18 @@ CHECKS = {
   level="Generated inputs x histories; byte-wise equality of files, exit status and normalised diagnostics against a reference computed from a clean copy after every step. Hash-seed dependence is sampled by repeated fresh processes, not enumerated.",
   note="Two defects found by this check were repaired (map-order dependent diagnostics, pattern-order dependent diagnostics).",
   design="5/C09"),
+ "C01": dict(
+  engine="E-run (compile only) + E-cli",
+  technique="property-based testing: rapid programs over the full feature mix and rapid multi-file layouts; oracle = Go compiler on the whole module plus a generated conformance file plus a scope walk for duplicate / shadowing identifiers",
+  level="Generated programs x formats x layouts; whatever goverter accepts must compile and implement the declared API. Exploration; found and fixed the per-file helper namespace defect, three open findings recorded.",
+  note="A goverter failure where success was expected is C03's business and counted as discarded here.",
+  design="5/C01"),
+ "C18": dict(
+  engine="E-run (compile only)",
+  technique="property-based testing: AST invariants (import set, kinds of top-level declarations, shape of init) over every file emitted for rapid-generated programs",
+  level="Universal claim over outputs sampled through the program generator; the invariant is checked on each emitted file. Exploration.",
+  note="'exactly the needed imports' = subset check + successful compilation (Go rejects unused imports).",
+  design="5/C18"),
 }
 
 def main():
